@@ -291,6 +291,57 @@ def parent_language():
     return defn("parent_language_like_lint_file", "bool", "true")
 
 
+def seq_entry_points():
+    """Template for the two sequential entry points: lint_files and lint_directory are the same loop
+         violations = []; [file_paths = _collect_files_fast(dir_path, recursive)]
+         for file_path in file_paths: violations.extend(self.lint_file(file_path))
+         for rule in self.registry.list_all(): violations.extend(rule.finalize())
+         return violations
+    (comments / docstrings free); emits which of them collects the files itself."""
+    rows = []
+    for name in ("lint_files", "lint_directory"):
+        stmts = [ast.unparse(st) for st in _body(_orch(name))]
+        collects = "file_paths = _collect_files_fast(dir_path, recursive)" in stmts
+        want = (["violations = []"] + (["file_paths = _collect_files_fast(dir_path, recursive)"] if collects else [])
+                + ["for file_path in file_paths:\n    violations.extend(self.lint_file(file_path))",
+                   "for rule in self.registry.list_all():\n    violations.extend(rule.finalize())", "return violations"])
+        if sorted(stmts[:-3]) != sorted(want[:-3]) or stmts[-3:] != want[-3:]:
+            raise Unsupported(f"{name} is not the lint_file loop followed by the finalize loop: {stmts}")
+        rows.append(f"({coq_string(name)}, {'true' if collects else 'false'})")
+    return defn("seq_entry_points", "list (string * bool)", coq_list(rows))
+
+
+def worker_template():
+    """Template for the task side: what goes into a work item and how the worker uses it.
+         work_items = [(fp, self.project_root, self.config) for fp in file_paths]      (_execute_parallel_linting)
+         futures = [executor.submit(_lint_file_worker, item) for item in work_items]   (one task per file, all files)
+         file_path, project_root, config = args                                        (_lint_file_worker)
+         orchestrator = Orchestrator(project_root=project_root, config=config)
+         violations = orchestrator.lint_file(file_path);  return [v.to_dict() for v in violations]
+    Other statements (comments, logging, hooks) are free; these must be present exactly once."""
+    g = _orch("_execute_parallel_linting")
+    comps = [n for n in ast.walk(g) if isinstance(n, ast.ListComp)]
+    items = [c for c in comps if isinstance(c.elt, ast.Tuple)]
+    if len(items) != 1 or ast.unparse(items[0].generators[0].iter) != "file_paths" or items[0].generators[0].ifs:
+        raise Unsupported("_execute_parallel_linting: work item comprehension")
+    var = ast.unparse(items[0].generators[0].target)
+    tup = [ast.unparse(e) for e in items[0].elt.elts]
+    if tup != [var, "self.project_root", "self.config"]:
+        raise Unsupported(f"work item is {tup}")
+    subs = [c for c in comps if isinstance(c.elt, ast.Call) and ast.unparse(c.elt.func) == "executor.submit"]
+    if len(subs) != 1 or [ast.unparse(a) for a in subs[0].elt.args] != ["_lint_file_worker", ast.unparse(subs[0].generators[0].target)] \
+            or ast.unparse(subs[0].generators[0].iter) != "work_items" or subs[0].generators[0].ifs:
+        raise Unsupported("_execute_parallel_linting: submission of the tasks")
+    f = find_func(parse(CORE), "_lint_file_worker")
+    src = [ast.unparse(n) for n in ast.walk(f) if isinstance(n, (ast.Assign, ast.Return))]
+    for want in ("file_path, project_root, config = args", "orchestrator = Orchestrator(project_root=project_root, config=config)",
+                 "violations = orchestrator.lint_file(file_path)", "return [v.to_dict() for v in violations]"):
+        if src.count(want) != 1:
+            raise Unsupported(f"_lint_file_worker: `{want}` occurs {src.count(want)} times")
+    return (defn("work_item", "list string", coq_str_list(["file_path", "self.project_root", "self.config"]))
+            + defn("worker_builds_fresh_orchestrator_with_item_config", "bool", "true"))
+
+
 def _reraise_then_swallow(t: ast.Try, what: str):
     """handlers: zero or more `except T: raise`, then one handler that logs and does `return []`"""
     if not t.handlers or any(h.type is None for h in t.handlers):
@@ -487,9 +538,11 @@ ITEMS = [
     ("par_threshold", par_threshold),
     ("par_fallback", par_fallback),
     ("par_empty_guard", par_empty_guard),
+    ("seq_entry_points", seq_entry_points),
     ("parent_evidence", parent_evidence),
     ("parent_language", parent_language),
     ("worker", worker),
+    ("worker_template", worker_template),
     ("extract", extract),
     ("safe_check", safe_check),
     ("dir_parallel", dir_parallel),
